@@ -6,3 +6,24 @@ package prelude
 //@ func strings.ReplaceAll
 //@   uses strings
 //@   ensures result == replace_all(arg0, arg1, arg2)
+
+// concrete string mode only
+//@ func strings.TrimSuffix
+//@   strings concrete
+//@   ensures result == smt("Str", "(ite (str.suffixof $2 $1) (str.substr $1 0 (- (str.len $1) (str.len $2))) $1)", arg0, arg1)
+//@ func strings.Split
+//@   strings concrete
+//@   uses merkle
+//@   allocates
+//@   modifies H.HA_Str
+//@   ensures fresh(result) && result.off == 0 && len(result) == split_count(arg0, arg1) && forall(i, 0, len(result), result[i] == split_at(arg0, arg1, i))
+//@   ensures forall(l, "Int", l != result.arr ==> H.HA_Str[l] == old(H.HA_Str)[l])
+//@ func strings.Contains
+//@   strings concrete
+//@   ensures result == smt("Bool", "(str.contains $1 $2)", arg0, arg1)
+//@ func strings.HasPrefix
+//@   strings concrete
+//@   ensures result == smt("Bool", "(str.prefixof $2 $1)", arg0, arg1)
+//@ func strings.HasSuffix
+//@   strings concrete
+//@   ensures result == smt("Bool", "(str.suffixof $2 $1)", arg0, arg1)
